@@ -248,6 +248,61 @@ Fixpoint erase (tr : list aev) : history Sp :=
 
 End WithSpec.
 
+(** ** Optional: the same search with a cache of dead ends.
+
+    [lincheck_memo st_eqb h] explores the same tree as [lincheck], but remembers the pairs
+    (operations still to do, abstract state) from which the search failed and does not
+    explore them again; with a bounded number of threads this removes the exponential
+    blow-up on non-linearizable histories.  It needs a boolean equality on abstract states
+    that is sound ([st_eqb a b = true -> a = b]; it may answer [false] on equal states,
+    which only loses cache hits).  [LinProofs.lincheck_memo_eq] proves
+    [lincheck_memo st_eqb h = lincheck h], so all theorems about [lincheck] apply. *)
+
+Section Memo.
+Context {Sp : Spec} (st_eqb : St Sp -> St Sp -> bool).
+
+(** a dead end: the positions of the invocations still to do, and the state *)
+Definition cache : Type := list (list nat * St Sp).
+
+Fixpoint nats_eqb (a b : list nat) : bool :=
+  match a, b with
+  | [], [] => true
+  | x :: a', y :: b' => (x =? y) && nats_eqb a' b'
+  | _, _ => false
+  end.
+
+Definition cached (k : list nat) (s : St Sp) (c : cache) : bool :=
+  existsb (fun e => nats_eqb (fst e) k && st_eqb (snd e) s) c.
+
+(** try the candidates [cands] one after the other, threading the cache through *)
+Fixpoint try_all (rec : list (oper (Sp:=Sp)) -> St Sp -> cache -> bool * cache)
+    (todo : list oper) (s : St Sp) (cands : list oper) (c : cache) : bool * cache :=
+  match cands with
+  | [] => (false, c)
+  | a :: cands' =>
+      let (s', r) := sstep Sp s (o_op a) in
+      if minimal todo a && result_ok a r then
+        let (b, c') := rec (drop_op a todo) s' c in
+        if b then (true, c') else try_all rec todo s cands' c'
+      else try_all rec todo s cands' c
+  end.
+
+Fixpoint msearch (fuel : nat) (todo : list oper) (s : St Sp) (c : cache) : bool * cache :=
+  if forallb is_open todo then (true, c) else
+  match fuel with
+  | 0 => (false, c)
+  | S f =>
+      let k := map o_inv todo in
+      if cached k s c then (false, c) else
+      let (b, c') := try_all (msearch f) todo s todo c in
+      if b then (true, c') else (false, (k, s) :: c')
+  end.
+
+Definition lincheck_memo (h : history Sp) : bool :=
+  wf_historyb h && fst (msearch (length h) (ops_of h) (sinit Sp) []).
+
+End Memo.
+
 Arguments lop : clear implicits.
 Arguments oper : clear implicits.
 Arguments aev : clear implicits.
@@ -258,3 +313,4 @@ Arguments linearizable : clear implicits.
 Arguments lincheck : clear implicits.
 Arguments lp_valid : clear implicits.
 Arguments lp_validb : clear implicits.
+Arguments lincheck_memo : clear implicits.
